@@ -3,7 +3,8 @@
 1. TLC enumerates the decision tables of specs/TrustFiles exhaustively at
    small bounds (every case is an initial state) and checks the rule's own
    properties on every case: WildIsRef, NegationExcludes, PositiveNeeded,
-   DamagedLineIsLocal, FallbackRule, MarkerPartition, OrderFree, TokPlain,
+   DamagedLineIsLocal, FallbackRule, RevocationKept, MarkerPartition,
+   OrderFree, TokPlain,
    TokQuotes, AllMustMatch, FirstEntryWins.  Sensitivity runs: the same
    specification with a deliberately wrong rule (negation ignored, fallback
    always, one from= suffices) must violate the matching property; witness
@@ -36,7 +37,8 @@ DEF = dict(Mode='"pat"', Emit='FALSE', MaxPat=2, MaxSubj=2, MaxItems=1,
            Upper='FALSE', MaxLines=1, HFSel=[1], MarkSel=[1], KeySel=[1],
            MaxTok=2, MaxEntries=1, MaxOpts=1, OptSel=[1], SampleMod=1,
            SampleRem=0, NegIgnored='FALSE', FallbackAlways='FALSE',
-           AnyFromSuffices='FALSE', CaseFold='FALSE')
+           AnyFromSuffices='FALSE', DropPortRevoked='FALSE',
+           CaseFold='FALSE')
 
 # many small single-worker JVMs run side by side: keep each one narrow
 JVM_ENV = {'JDK_JAVA_OPTIONS': '-XX:ParallelGCThreads=2 -XX:CICompilerCount=2'}
@@ -47,7 +49,7 @@ ALL_OPT = list(range(1, 19))
 INVS = {
     'pat': ['WildIsRef', 'NegationExcludes', 'PositiveNeeded'],
     'kh': ['NegationExcludes', 'DamagedLineIsLocal', 'FallbackRule',
-           'MarkerPartition', 'OrderFree'],
+           'RevocationKept', 'MarkerPartition', 'OrderFree'],
     'tok': ['TokPlain', 'TokQuotes'],
     'ak': ['NegationExcludes', 'AllMustMatch', 'FirstEntryWins'],
 }
@@ -69,8 +71,9 @@ def write_cfg(name, invs, **kw):
 
 
 def run_tlc(name, invs, timeout=1500, **kw):
-    cfg = write_cfg(f'_c17_{name}.cfg', invs, **kw)
-    tag = f'c17_{name}'
+    # unique per process: several runs of this check may be active at once
+    cfg = write_cfg(f'_c17_{os.getpid()}_{name}.cfg', invs, **kw)
+    tag = f'c17_{os.getpid()}_{name}'
     try:
         res = tlc.run(SPEC, 'TrustFiles', cfg, tag, workers=1,
                       timeout=timeout, java_heap='2g', env=JVM_ENV)
@@ -136,6 +139,8 @@ SENSITIVITY = [
                           NegIgnored='TRUE'), 'NegationExcludes'),
     ('fallback', 'kh', dict(MaxLines=2, HFSel=[1, 8], FallbackAlways='TRUE'),
      'FallbackRule'),
+    ('droprev', 'kh', dict(MaxLines=2, HFSel=[1, 8], MarkSel=[1, 3],
+                           DropPortRevoked='TRUE'), 'RevocationKept'),
     ('anyfrom', 'ak', dict(MaxEntries=1, MaxOpts=2, OptSel=[1, 2, 3, 4, 17, 18],
                            AnyFromSuffices='TRUE'), 'AllMustMatch'),
     ('wit_fallback', 'kh', dict(MaxLines=1, HFSel=[1, 8]), 'NeverFallsBack'),
@@ -260,7 +265,7 @@ class Replayer:
             sig = {'module': 'TrustFiles', 'api': 'known_hosts',
                    'file': desc, 'query': list(q)}
             if has_d:
-                sig['damage'] = dmg
+                sig['damaged_line_class'] = dmg
             self.ctx.violation(
                 sig, f'known_hosts {desc} looked up with {q}: rule selects '
                 f'host keys {host}, CA keys {ca}, revoked {rev}; asyncssh '
@@ -585,8 +590,8 @@ def _main(real_ctx, tf, workdir):
         'match the address also when a [host]:port lookup is made',
         'the plain-name fallback of a [host]:port lookup happens when no '
         'trusted (host or CA) entry matched; @revoked entries of the '
-        '[host]:port lookup are then dropped (OpenSSH would still honour '
-        'them): modelled as the code does, recorded',
+        '[host]:port lookup stay in the revoked list (as repaired in /repo '
+        'commit 7258cd0; RevocationKept)',
         'option tokenizer modelled as implemented (a backslash escapes any '
         'character, also outside quotes; OpenSSH only knows \\" inside '
         'quotes); a malformed option string rejects the whole file '
